@@ -69,6 +69,10 @@ Canon(n, v)  == n \in DOMAIN cv /\ cv[n] = v
 TipView      == IF tag = "finalized" THEN fin ELSE tip
 
 (* version of the ancestor b of block <<n, v>> (b <= n); -1 if the chain of parents is not known *)
+(* the ancestors <<b, version>> of block <<n, v>> down to block lo (one walk along the parents) *)
+RECURSIVE AncSet(_, _, _)
+AncSet(n, v, lo) == IF n < lo \/ n < 1 \/ <<n, v>> \notin DOMAIN B THEN {} ELSE {<<n, v>>} \cup AncSet(n - 1, B[<<n, v>>].pv, lo)
+
 RECURSIVE Anc(_, _, _)
 Anc(n, v, b) == IF ~Known(n, v) THEN -1 ELSE IF n = b THEN v ELSE Anc(n - 1, B[<<n, v>>].pv, b)
 
@@ -85,8 +89,11 @@ EvChain ==
          nb == [p \in {<<bs[i].n, bs[i].v>> : i \in 1..Len(bs)} |->
                   LET i == CHOOSE j \in 1..Len(bs) : <<bs[j].n, bs[j].v>> = p IN [pv |-> bs[i].pv, w |-> bs[i].w]]
          nc == [n \in {bs[i].n : i \in 1..Len(bs)} |-> (CHOOSE j \in 1..Len(bs) : bs[j].n = n) ]
-     IN /\ B' = nb @@ B
-        /\ cv' = [n \in {bs[i].n : i \in 1..Len(bs)} |-> bs[nc[n]].v] @@ cv
+     IN IF Trace[l].op = "prefill"     \* blocks 1..tip, version 0, no watched log (a long quiet stretch below the scripted chain)
+        THEN /\ B' = [p \in {<<n, 0>> : n \in 1..Trace[l].tip} |-> [pv |-> 0, w |-> <<>>]] @@ B
+             /\ cv' = [n \in 1..Trace[l].tip |-> 0] @@ cv
+        ELSE /\ B' = nb @@ B
+             /\ cv' = [n \in {bs[i].n : i \in 1..Len(bs)} |-> bs[nc[n]].v] @@ cv
   /\ tip' = Trace[l].tip /\ fin' = Trace[l].fin
   /\ forks' = IF Trace[l].op = "fork" THEN forks + 1 ELSE forks
   /\ l' = l + 1 /\ UNCHANGED <<t, tag, st, seen, pendAck, kfb, viol>>
@@ -104,8 +111,7 @@ EvProcess ==
                THEN <<V("Faithful", [n |-> e.n, v |-> e.v, got |-> e.evs, chain |-> B[<<e.n, e.v>>].w,
                                      kf |-> IF f7 THEN "F7" ELSE "none"])>> ELSE <<>>
          skipped == IF ordered /\ Known(e.n, e.v)
-                    THEN {b \in (prev + 1)..(e.n - 1) :
-                            LET vb == Anc(e.n, e.v, b) IN vb >= 0 /\ B[<<b, vb>>].w # <<>>}
+                    THEN {p[1] : p \in {q \in AncSet(e.n - 1, B[<<e.n, e.v>>].pv, prev + 1) : B[q].w # <<>>}}
                     ELSE {}
          v3 == IF skipped # {} THEN <<V("NoSkip", [n |-> e.n, v |-> e.v, marker |-> prev, skipped |-> skipped, kf |-> "none"])>> ELSE <<>>
      IN IF e.ok
